@@ -710,7 +710,8 @@ fn string_feature(role: Role, st: &mut StrLit, ex: &mut Excl, tags: &mut Vec<&'s
         (F_STR_BRACE, true, &["}"], "_"),
         (F_STR_SEMI, action, &[";"], "_"),
         (F_STR_LOGIC, cond, &["&&", "||"], "_"),
-        (F_STR_PAREN, cond || role == Role::CallArg, &["(", ")"], "_"),
+        // since 0b28ef1 only the argument list of a function call in a condition still ends at the first `)`
+        (F_STR_PAREN, role == Role::CondArg, &["(", ")"], "_"),
         (F_STR_THEN, cond, &[" then "], " than "),
         (F_STR_COMMA, call, &[","], "_"),
         (F_STR_PLUSEQ, role == Role::AssignVal, &["+="], "_"),
